@@ -17,7 +17,8 @@ RULE = ('Hypothesis-generated histories over populations of 2-6 recorder handler
         '(harness holds the only strong references and drops them at generated points) and on a World '
         '(components whose only strong reference is the world): add / remove / forget+gc.collect / dispatch / '
         'arm a one-shot "killer" callback that makes another handler disappear in the middle of a dispatch '
-        '(drops its last reference, removes its component or deletes its entity immediately). The listener '
+        '(drops its last reference, removes its component or deletes its entity immediately); dispatches are '
+        'direct or postponed (disable; dispatch; enable - the release delivers it). The listener '
         'iteration order of every dispatch is part of the case: a generated permutation (half of the '
         'dispatches) or slot order, injected through an ordered set in desper.events. Oracle: every '
         'callback has a live receiver of the right class; after forget + gc.collect() the harness weakref is '
@@ -28,7 +29,8 @@ RULE = ('Hypothesis-generated histories over populations of 2-6 recorder handler
 ASSUMPTIONS = [
     'CPython reference counting (an object dies when its last strong reference is dropped; gc.collect() is '
     'called at drop points as well)',
-    'dispatching stays enabled (a queued relay legitimately holds its arguments until delivery)',
+    'dispatching is only disabled around a single postponed dispatch (a queued lifecycle relay would '
+    'legitimately hold its component until delivery)',
     'the order injection is a harness-side module global named set in desper.events; if the tree stops calling '
     'set(...) there the injection silently stops applying (schedule_control_used drops to 0), checks stay sound',
 ]
@@ -89,19 +91,19 @@ def perm_of(n, k):
 def decode_op(t):
     sel, p = t
     d = [(p >> (4 * i)) & 15 for i in range(4)]
-    kind = ('add', 'add', 'remove', 'forget', 'forget', 'dispatch', 'dispatch', 'dispatch', 'dispatch', 'arm', 'arm',
-            'arm', 'gc')[sel % 13]
+    kind = ('add', 'add', 'remove', 'forget', 'forget', 'dispatch', 'dispatch', 'dispatch', 'deferred', 'arm', 'arm',
+            'arm', 'gc', 'deferred')[sel % 14]
     if kind in ('add', 'remove', 'forget'):
         return [kind, d[0] % 6]
-    if kind == 'dispatch':
-        return ['dispatch', d[0], (p >> 4) % 1440]       # perm selector: odd -> injected order
+    if kind in ('dispatch', 'deferred'):
+        return [kind, d[0], (p >> 4) % 1440]       # perm selector: odd -> injected order
     if kind == 'arm':
         return ['arm', d[0] % 6, d[1] % 6, d[2] % 3]
     return ['gc']
 
 
 def strategy():
-    op = st.tuples(st.integers(0, 12), st.integers(0, 16 ** 4 - 1)).map(decode_op)
+    op = st.tuples(st.integers(0, 13), st.integers(0, 16 ** 4 - 1)).map(decode_op)
     return st.fixed_dictionaries({
         'mode': st.integers(0, 1),
         'handlers': st.lists(st.integers(1, 7), min_size=2, max_size=6),
@@ -246,7 +248,11 @@ class Run:
         j = others[j % len(others)] if others and j < 5 else j % self.n
         self.scripts[i] = (j, how)
 
-    def op_dispatch(self, evsel, psel):
+    def op_deferred(self, evsel, psel):
+        """the same event, postponed: disable, dispatch, then the enabling assignment delivers it."""
+        self.op_dispatch(evsel, psel, deferred=True)
+
+    def op_dispatch(self, evsel, psel, deferred=False):
         ev = EVENTS[evsel % 3]
         if evsel < 12:      # prefer events with several (else some) live registered listeners
             cnt = {e: sum(1 for k in range(self.n) if self.registered[k] and self.alive(k)
@@ -262,11 +268,20 @@ class Run:
         start = [i for i in range(self.n) if self.registered[i] and self.alive(i) and ev in self.classes[i].evs]
         self.frame = {'ev': ev, 'calls': [], 'killed': set()}
         try:
-            self.d.dispatch(ev, self.step_ix)
+            if deferred:
+                self.d.dispatch_enabled = False
+                self.d.dispatch(ev, self.step_ix)
+                if self.frame['calls']:
+                    self.viol('callback_while_disabled', event=ev)
+                self.flags['deferred_dispatch'] += 1
+                self.d.dispatch_enabled = True
+            else:
+                self.d.dispatch(ev, self.step_ix)
         except PropertyViolation:
             raise
         except Exception as exc:
-            self.viol('dispatch_raised', event=ev, exception=repr(exc), calls=self.frame['calls'])
+            self.viol('dispatch_raised', event=ev, exception=repr(exc), calls=self.frame['calls'],
+                      deferred=deferred)
         frame, self.frame = self.frame, None
         self.perm = None
         counts = collections.Counter(frame['calls'])
